@@ -157,6 +157,7 @@ pub fn check(id: &str, tier: Tier) -> i32 {
       vec![
         (2, 3, with_none.clone(), vec![(true, 256, 8)], vec![3, 1, 0, 7, 11]),
         (2, 3, lists.clone(), vec![(false, 225, 8)], vec![3, 11]),
+        (2, 3, lists.clone(), vec![(true, 256, 0)], vec![3]),
         (3, 2, lists.clone(), vec![(true, 256, 8)], vec![3, 1, 11]),
         (4, 1, lists.clone(), vec![(true, 256, 8)], vec![3, 11]),
       ]
